@@ -130,12 +130,96 @@ def runResp (conn : Bytes) (impl : String) : Ans :=
     | none => ("skip", ["malformed"])
   { model := model, verdict := verdict, tags := ["resp"] ++ tags }
 
+def hexB (s : String) : Option Bytes := bytesOfHex s
+
+def parseEnvVars (s : String) : Option (List (Bytes × Bytes)) :=
+  if s == "-" then some []
+  else (s.splitOn ",").mapM fun kv =>
+    match kv.splitOn "=" with
+    | [k, v] => match hexB k, hexB v with
+      | some k, some v => some (k, v)
+      | _, _ => none
+    | _ => none
+
+def parseHdrs (s : String) : Option (List (Bytes × List Bytes)) :=
+  if s == "-" then some []
+  else (s.splitOn ",").mapM fun kv =>
+    match kv.splitOn ":" with
+    | [k, vs] => match hexB k, (vs.splitOn "|").mapM hexB with
+      | some k, some vs => some (k, vs)
+      | _, _ => none
+    | _ => none
+
+def isInfix (p : Bytes) : Bytes → Bool
+  | [] => p.isEmpty
+  | x :: xs => (p.isPrefixOf (x :: xs)) || isInfix p xs
+
+def alookup (m : List (Bytes × Bytes)) (k : Bytes) : Option Bytes := (m.find? (fun p => p.1 == k)).map (·.2)
+
+def runRT (i : RtIn) (body : Bytes) (impl : String) : Ans :=
+  match impl.splitOn " " with
+  | [ib, st, bd] =>
+    let dec := (unrle ib).bind decodeRequest
+    let cands := [envPairs i, envPairs { i with hdrs := i.hdrs.reverse }]
+    let keysOf := match dec with
+      | some r => r.pairs.map (·.1)
+      | none => []
+    let ord := match dec with
+      | some r => ((cands.map (fun c => reorder c keysOf)).find? (fun c => c == r.pairs)).getD (reorder (envPairs i) keysOf)
+      | none => envPairs i
+    let model := (match encodeRequest ord body with
+      | some bs => rle bs
+      | none => "PANIC") ++ " 201 68656c6c6f"
+    let overridden (k : Bytes) : Bool := i.envVars.any (fun p => upper p.1 == k)
+    let verdict : String := match dec with
+      | none => "FAIL:undecodable"
+      | some r =>
+        let m := r.pairs
+        let want : List (Bytes × Bytes) := [(kREQUEST_METHOD, i.method), (kQUERY_STRING, i.rawQuery),
+          (kSCRIPT_FILENAME, i.scriptFilename), (kDOCUMENT_ROOT, i.root), (kSERVER_PROTOCOL, i.proto),
+          (kREQUEST_URI, i.requestURI), (kSCRIPT_NAME, i.path), (kGATEWAY_INTERFACE, sCGI11), (kSERVER_SOFTWARE, sBFE)]
+        let finalOverride (k : Bytes) : Bool := k == kREQUEST_METHOD
+        let protBad := want.any (fun p => (!overridden p.1 || finalOverride p.1) && alookup m p.1 != some p.2)
+        let proxyFromCfg := (i.envVars.find? (fun p => upper p.1 == kHTTP_PROXY)).map (·.2)
+        let oxy := alookup m kHTTP_PROXY != proxyFromCfg
+        let lost := i.hdrs.any (fun h =>
+          let name := dashUnd (upper h.1)
+          name != sPROXY && !(match alookup m (sHTTP_ ++ name) with
+            | some v => isInfix (joinWith [44, 32] h.2) v
+            | none => false))
+        let clBad := if i.contentLength < 0 then !(alookup m kCONTENT_LENGTH == none || alookup m kCONTENT_LENGTH == some [])
+          else alookup m kCONTENT_LENGTH != some (fmtInt i.contentLength)
+        let piComma := match alookup m kPATH_INFO with
+          | some (44 :: _) => true
+          | _ => false
+        if r.body != body then "FAIL:body"
+        else if oxy then "FAIL:httpoxy"
+        else if protBad then "FAIL:protected-var"
+        else if lost then "FAIL:header-lost"
+        else if st != "201" || bd != "68656c6c6f" then "FAIL:response"
+        else if clBad then (if i.contentLength < 0 then "FAIL:content-length-negative" else "FAIL:content-length")
+        else if piComma && !overridden kPATH_INFO then "FAIL:path-info-comma"
+        else "ok"
+    let hasProxy := i.hdrs.any (fun h => dashUnd (upper h.1) == sPROXY)
+    let collide := i.hdrs.any (fun h => i.hdrs.any (fun g => g.1 != h.1 && dashUnd (upper g.1) == dashUnd (upper h.1)))
+    { model := model, verdict := verdict
+      tags := ["rt", "nt"] ++ (if hasProxy then ["proxy-hdr"] else []) ++ (if collide then ["collide"] else [])
+        ++ (if i.envVars.isEmpty then [] else ["envvars"]) ++ (if i.contentLength < 0 then ["cl-neg"] else []) }
+  | _ => { model := "rt-result", verdict := "FAIL:result", tags := ["rt"] }
+
 def run (op impl : String) : Ans :=
   match op.splitOn " " with
   | ["req", p, b, _rk] =>
     match parsePairs p, unrle b with
     | some ps, some body => runReq ps body impl
     | _, _ => { model := "bad-op", verdict := "skip" }
+  | ["rt", me, rem, ho, pa, rq, pr, sc, cl, ro, ev, hd, b, sf, pij, rh, rp, ru] =>
+    match [me, rem, ho, pa, rq, pr, sc, ro, sf, pij, rh, rp, ru].mapM hexB, cl.toInt?, parseEnvVars ev, parseHdrs hd, unrle b with
+    | some [me, rem, ho, pa, rq, pr, sc, ro, sf, pij, rh, rp, ru], some cl, some ev, some hd, some body =>
+      runRT { method := me, remote := rem, host := ho, path := pa, rawQuery := rq, proto := pr, scheme := sc,
+              contentLength := cl, root := ro, envVars := ev, hdrs := hd, scriptFilename := sf, pathInfoJoin := pij,
+              reqHost := rh, reqPort := rp, requestURI := ru } body impl
+    | _, _, _, _, _ => { model := "bad-op", verdict := "skip" }
   | ["resp", c, _ck] =>
     match unrle c with
     | some conn => runResp conn impl
